@@ -17,7 +17,7 @@ RULE = ("marked-up legal documents (italic/emphasis around party names with and 
 ASSUMPTIONS = ["the name-validity rule is re-implemented in the monitor from its documentation "
                "(length > 2, capitalised, no trailing period, not a number, not a disallowed name)"]
 FLOORS = {"quick": {"documents": 2000, "references_markup_mode": 800, "references_plain_mode": 300,
-                    "markup_only_references": 300, "nonreference_citations_compared": 5000},
+                    "markup_only_references": 300, "same_markup_other_steps": 500, "nonreference_citations_compared": 5000},
           "thorough": {"documents": 100000, "references_markup_mode": 40000, "markup_only_references": 15000}}
 N = {"quick": 300, "thorough": 14000}
 SHARDS = {"quick": 8, "thorough": 14}
@@ -106,6 +106,17 @@ def run_shard(spec, rec):
         m = gen.markup_doc(rng)
         steps = rng.choice(gen.MARKUP_STEPS)
         check(m, steps, rec, ac)
+        if k % 3 == 0:
+            # history: the same markup again with the same steps in another order / another list
+            # (every list still contains the html step)
+            other = list(steps)
+            rng.shuffle(other)
+            if other == list(steps):
+                other = rng.choice([x for x in gen.MARKUP_STEPS + [["all_whitespace", "html"], ["underscores", "html"]]
+                                    if x != list(steps)])
+            rec.count("same_markup_other_steps")
+            check(m, other, rec, ac)
+            check(m, steps, rec, ac)
 
 
 def replay(w, rec):
